@@ -162,3 +162,49 @@ def family_table(rng, nareas=None, regs=True):
                 pos += TSIZE[t] + rng.choice([0, 0, 1, 2])
     words = [rng.randrange(65536) for _ in range(sum(a[1] for a in areas))]
     return Table(be, areas, entries, words)
+
+def stale_state_histories(rng, count):
+    """histories in which an operation ends early (a sanitise that cannot restore a register in a skip-defaults area whose default
+    violates its own constraint; an initialisation-only default), followed by sets/gets on every register incl. always-fail ones:
+    state left behind by the early exit must not change what later operations accept"""
+    for _ in range(count):
+        be = rng.randrange(2)
+        t1 = rng.randrange(8); t2 = rng.choice([0, 1, 3, 4])
+        ck1 = (1, 0, 0)                                     # always-fail register, default loads during initialisation only
+        d1 = acceptable_default(rng, t1, (0, 0, 0))
+        bad = rand_check(rng, t2, rng.choice([2, 4]))       # min / range constraint
+        if 3 <= t2 <= 5:
+            dflt = from_signed(t2, to_signed(t2, bad[1]) - 1)
+        else:
+            dflt = (bad[1] - 1) & tmask(t2)
+        if (3 <= t2 <= 5 and to_signed(t2, dflt) >= to_signed(t2, bad[1])) or (t2 < 3 and dflt >= bad[1]):
+            continue                                        # the bound was the type minimum: no violating default
+        a1 = (100, TSIZE[t1] + 1, 3, rng.choice([MEM, CUSTOM]))
+        a2 = (100 + TSIZE[t1] + 1 + rng.choice([0, 2]), TSIZE[t2] + 1, 7, MEM)   # skip-defaults area
+        order = rng.randrange(2)
+        if order:
+            areas = [a1, a2]
+            entries = [(t1, d1, a1[0], 1, 0, 0), (0, 3, a1[0] + TSIZE[t1], 0, 0, 0), (t2, dflt, a2[0], bad[0], bad[1], bad[2])]
+            words = [rng.randrange(65536) for _ in range(a1[1])] + [rng.choice([0, 0xffff, rng.randrange(65536)]) for _ in range(a2[1])]
+        else:
+            a2 = (50, TSIZE[t2] + 1, 7, MEM)
+            areas = [a2, a1]
+            entries = [(t2, dflt, a2[0], bad[0], bad[1], bad[2]), (t1, d1, a1[0], 1, 0, 0), (0, 3, a1[0] + TSIZE[t1], 0, 0, 0)]
+            words = [rng.choice([0, 0xffff, rng.randrange(65536)]) for _ in range(a2[1])] + [rng.randrange(65536) for _ in range(a1[1])]
+        tab = Table(be, areas, entries, words)
+        ne = len(entries)
+        ops = [(0,)]
+        def probe():
+            o = []
+            for j in range(ne):
+                tj = entries[j][0]
+                o += [(3, j), (1, j, tj, rng.choice([0, 1, 5, tmask(tj) >> 2])), (3, j), (4, j, tj, 1), (5, j, tj, 1), (3, j)]
+            return o
+        ops += probe()
+        for _ in range(rng.randrange(1, 4)):
+            ops += [(8,)] + probe()
+            if rng.random() < 0.5:
+                ops += [(10, rng.randrange(2), 0, rng.randrange(65536)), (8,)] + probe()
+            if rng.random() < 0.3:
+                ops += [(6, areas[0][0], 2, rng.randrange(65536), rng.randrange(65536))] + probe()
+        yield tab.line(ops)
